@@ -41,7 +41,6 @@ package util
 //@   props C01
 //@   trusted
 //@   requires relsNonNil(list)
-//@   ensures [sorted] sortFn == SortByRevision ==> descByRevision(list)
 //@   ensures [head-is-max] sortFn == SortByRevision && len(list) > 0 ==> (forall j int :: 0 <= j && j < len(list) ==> old(list[j].Version) <= list[0].Version) && (exists j int :: 0 <= j && j < len(list) && list[0] == old(list[j]))
 //@   ensures [releases-untouched] forall r *rspb.Release :: r.Version == old(r.Version) && r.Name == old(r.Name) && r.Info == old(r.Info)
 //@   ensures [same-elements] permuted(list)
@@ -56,3 +55,11 @@ package util
 //@   trusted
 //@   ensures [subset] forall j int :: 0 <= j && j < len(rets) ==> rets[j] != nil && (exists i int :: 0 <= i && i < len(rels) && rels[i] == rets[j])
 //@   ensures [fresh-list] len(rets) == 0 || fresh(rets)
+
+// SortManifests builds its hook and manifest lists from scratch: slices that existed before the
+// call keep their elements (trusted frame; the sorting inside works on the fresh lists only).
+//@ func SortManifests
+//@   props C08
+//@   trusted
+//@   ensures [hook-lists-untouched] forall l []*rspb.Hook, i int :: !fresh(l) ==> l[i] == old(l[i])
+//@   ensures [heads-parsed] forall j int :: 0 <= j && j < len(result1) ==> result1[j].Head != nil
